@@ -443,12 +443,27 @@ func (x *fx) loopHead(li *loopInfo, b *ssa.BasicBlock, st *State, reach Term, pr
 	// 3. assume the invariants
 	envH := x.envAt(head, b, li.phiConst, false)
 	envH.loopSt = li.entryState
+	envH.hyp = true
 	for _, iv := range invs {
 		t, err := iv.eval(envH)
 		if err != nil {
 			continue
 		}
 		e.assume(implies(reach, t))
+	}
+	if x.fc != nil {
+		if lc := x.fc.Loops[li.ordinal]; lc != nil {
+			for _, gf := range lc.GhostFns {
+				// one point of the ghost function is defined per iteration (the index is strictly monotonic)
+				iv, err1 := envH.eval(gf.Idx)
+				vv, err2 := envH.eval(gf.Val)
+				if err1 != nil || err2 != nil {
+					e.bindingErrorText(x.fn, "ghostfn:"+gf.Name, gf.Text, fmt.Errorf("%v %v", err1, err2))
+					continue
+				}
+				e.assume(implies(reach, fmt.Sprintf("(= (%s %s) %s)", q("gf:"+gf.Name), iv.T, vv.T)))
+			}
+		}
 	}
 	if x.fc != nil {
 		if lc := x.fc.Loops[li.ordinal]; lc != nil && lc.Decreases != nil {
